@@ -12,7 +12,7 @@ open Scrapli Scrapli.Priv
   not-contains + pattern accept the prompt of *m* — evaluated by Go's regexp on the real patterns)
   ops: joined by `,` (`.` = none): `cmd:<hex>`, `cmds:<list>`, `cfgs:<list>:<priv>`,
   `cfg:<hex>:<priv>`, `acq:<hex>`, `int:<list>:<priv>`; list = items joined by `+`, `_` = empty
-answer: `<dom> <model errs> <model modes> <model log> <spec errs> <spec modes> <spec log>`
+answer: `<dom> <model errs> <model modes> <model log> <spec errs> <spec modes> <spec log> <model caches>`
 
 `path <levels> <cur> <tgt> <ordseed>` → `<dom> <model path> <spec path>`
 `proc <levels> <cache> <tgt> <mode> <ordseed>` → `<dom> <action> <next> <cache'>`
@@ -90,12 +90,12 @@ def showLog (l : List (Bytes × Bytes)) : String :=
 def showList (l : List String) : String := if l.isEmpty then "." else ",".intercalate l
 
 /-- the model of the code: run the operations one by one, record error and device mode after each -/
-def modelRun (c : Cfg) : Sess → List Op → List String × List String × Sess
-  | s, [] => ([], [], s)
+def modelRun (c : Cfg) : Sess → List Op → List String × List String × List String × Sess
+  | s, [] => ([], [], [], s)
   | s, op :: ops =>
     let (e, s1) := runOp c s op
-    let (es, ms, s2) := modelRun c s1 ops
-    (errName e :: es, toHex s1.dev.mode :: ms, s2)
+    let (es, ms, cs, s2) := modelRun c s1 ops
+    (errName e :: es, toHex s1.dev.mode :: ms, toHex s1.cache :: cs, s2)
 
 /-- the property's demand, computed without the search and without the loop: refused when the
 level is unknown; otherwise (unless `SendCommand(s)` finds the default cached) the acquisition log
@@ -130,9 +130,9 @@ def handleC04 : List String → String
       let dom := isTree c.L && distinguishes c && cmdsOK c.L && asksOK c &&
         (names c.L).contains dflt && (names c.L).contains start && payloadOK
       let s0 : Sess := { dev := { mode := start, awaiting := none, log := [] }, cache := [], tick := 0 }
-      let (mes, mms, s1) := modelRun c s0 ops
+      let (mes, mms, mcs, s1) := modelRun c s0 ops
       let (ses, sms, slog) := specRun c start [] ops
-      s!"{b2s dom} {showList mes} {showList mms} {showLog s1.dev.log} {showList ses} {showList sms} {showLog slog}"
+      s!"{b2s dom} {showList mes} {showList mms} {showLog s1.dev.log} {showList ses} {showList sms} {showLog slog} {showList mcs}"
     | _, _, _, _, _, _ => "bad-op"
   | ["path", lv, cur, tgt, seed] =>
     match parseLevels lv, fromHex cur, fromHex tgt, seed.toNat? with
